@@ -147,3 +147,9 @@ Theorem C07_memtable_flow_exact_outside_known :
   val = ev name.
 Proof. exact memtable_flow_exact_outside_known. Qed.
 Print Assumptions C07_memtable_flow_exact_outside_known.
+
+(** EventSink (REPLAY / ordered paths) and ConditionEvaluator (QUERY) materialise every cell identically:
+    EventSink's extra [get_i64_at] attempt on var-bytes cells gives what add_payload_field gives. *)
+Theorem C07_sink_agrees : forall c, read_cell_sink c = read_cell c.
+Proof. exact read_cell_sink_agrees. Qed.
+Print Assumptions C07_sink_agrees.
